@@ -9,6 +9,7 @@
   history does not remove the watched root itself (that case is C07.root_deleted: one DirDeletedEvent, stop).
 -/
 import WD.Proofs.Pipeline.ReplayRun
+import WD.Proofs.Pipeline.ReplayFlat
 namespace WD.C01
 open WD WD.Pipe
 
@@ -25,6 +26,19 @@ theorem replay_partial (fs0 : FS) (hwf : fs0.WF) (full : Bool) (ops : List Op)
   simp only [allEvents]
   rw [hrun, run_fs, h4]
   exact replay_run hwf full ops hv hroot
+
+/-- non-recursive watch: the same for exactly the root's direct children -/
+theorem replay_nonrecursive_partial (fs0 : FS) (hwf : fs0.WF) (full : Bool) (ops : List Op)
+    (hv : allValid (Sys.start fs0 false full) ops = true) (hroot : Op.rmdir ["W"] ∉ ops) :
+    sameTree (replay (treeW1 fs0) (allEvents ((Sys.start fs0 false full).run ops)))
+             (treeW1 ((Sys.start fs0 false full).run ops).1.fs) := by
+  obtain ⟨inv, hs, hc, h4, h5⟩ := start_flat fs0 hwf full
+  have hrun := (run_flat _ ops inv hs hc hv).1
+  rw [h4, h5] at hrun
+  rw [allValid_eq_fsValid, h4] at hv
+  simp only [allEvents]
+  rw [hrun, run_fs, h4]
+  exact replayFlat_run hwf full ops hv hroot
 
 /-- the statement about the contract alone (no pipeline): one operation -/
 theorem replay_contract_step (fs : FS) (hwf : fs.WF) (full : Bool) (op : Op) (hv : validOp fs op = true) :
